@@ -81,7 +81,8 @@ def run_job(job, seed, rec, tier):
         for k, idxs in enumerate(c03.small_sequences()):
             if k % job['of'] != job['shard']:
                 continue
-            if (k // job['of']) % job['stride'] != off:
+            # every sequence of length <= 2 runs in every tier; longer ones are strided
+            if len(idxs) > 2 and (k // job['of']) % job['stride'] != off:
                 continue
             n = len(idxs)
             cuts = [] if n < 2 else [1 + (k % (n - 1))]
